@@ -10,7 +10,8 @@ CONSTANTS MaxW,        \* total feature weight
           MaxRoot,     \* load statements in the root
           MaxMid,      \* load statements in the middle file
           RootTargets, \* targets the root may load
-          Spellings, CfgPool, ListPool, AccNs, AccMembers
+          Spellings, CfgPool, ListPool, AccNs, AccMembers,
+          LawDev       \* the deviations under which the laws are evaluated ({} = the ideal rules)
 
 VARIABLES r, m, acc, phase, w
 vars == <<r, m, acc, phase, w>>
@@ -89,10 +90,11 @@ Spec == Init /\ [][Next]_vars
 Done == phase = "done"
 Prog == [r |-> r, m |-> m, acc |-> acc]
 
-InvNamespaceOnly       == Done => LawNamespaceOnly(Prog)
-InvConfigOnlyDefault   == Done => LawConfigOnlyDefault(Prog)
-InvShowHideComplement  == Done => LawShowHideComplement(Prog)
-InvBuiltin             == Done => LawBuiltin(Prog)
+InvNamespaceOnly       == Done => LawNamespaceOnly(Prog, LawDev)
+InvConfigOnlyDefault   == Done => LawConfigOnlyDefault(Prog, LawDev)
+InvShowHideComplement  == Done => LawShowHideComplement(Prog, LawDev)
+InvFilterExact         == (Done /\ Len(m) = 1) => LawFilterExact(Prog, LawDev)
+InvBuiltin             == Done => LawBuiltin(Prog, LawDev)
 
 Emit == (Done /\ ~NotModelled(Prog)) =>
           PrintT(<<"VEC", ToJson([r |-> r, m |-> m, acc |-> acc, expect |-> ObserveM(Prog, {}), dev |-> DevMap(Prog)])>>)
